@@ -1,5 +1,6 @@
 import NurbsVerif.Model.Shape
 import NurbsVerif.Model.Knots2
+import NurbsVerif.Model.Transform
 import NurbsVerif.Driver.Parse
 /- shape parsing / printing and the knot-operation ops (C04 …) -/
 namespace Drv
@@ -101,6 +102,22 @@ def handleShape (toks : List String) : Option String :=
       let (S, rest) ← parseShape rest
       if !shapeOk S then return "ERR"
       insSeq false S rest
+  | "xform" :: rest => do
+      let (S, rest) ← parseShape rest
+      if !shapeOk S then return "ERR"
+      match rest with
+      | ["T", vs] =>
+          let vec ← parseList vs
+          if vec.length != (if S.rat then (dimOf S.net) - 1 else dimOf S.net) then return "ERR"
+          return showShape (translate S vec)
+      | ["S", m] =>
+          let m ← parseRat m
+          return showShape (scale S m)
+      | ["R", axis, c, sn] =>
+          let axis ← axis.toNat?; let c ← parseRat c; let sn ← parseRat sn
+          if axis > 2 then return "ERR"
+          return showShape (rotate S axis c sn)
+      | _ => none
   | "split" :: rest => do
       let (S, rest) ← parseShape rest
       match rest with
